@@ -76,7 +76,7 @@ def main():
         name = os.path.basename(os.path.dirname(mp))
         if a.only and name not in a.only.split(","):
             continue
-        if m.get("out_of_domain"):
+        if m.get("out_of_domain") or m.get("not_detected"):
             continue
         checks = [c for c, r in m["checks_run"].items() if r["detected"]]
         tasks.append((name, checks or [m["property"]], a.seed, a.workers))
